@@ -274,7 +274,13 @@ class CaseTimeout(Exception):
     pass
 
 
+TIMED_OUT = [False]
+
+
 def _alarm(signum, frame):
+    # lcapy's bare `except:` clauses can swallow this exception and carry on with a fall-back value:
+    # remember that the budget was exceeded so that the whole case is discarded even if it "completes"
+    TIMED_OUT[0] = True
     raise CaseTimeout()
 
 
@@ -287,10 +293,14 @@ def main():
         try:
             # repeating timer: lcapy's bare `except:` clauses can swallow a single alarm
             signal.setitimer(signal.ITIMER_REAL, float(c.get('timeout', 45)), 3.0)
+            TIMED_OUT[0] = False
             try:
-                out.append(run(c))
+                r = run(c)
             finally:
                 signal.setitimer(signal.ITIMER_REAL, 0)
+            if TIMED_OUT[0]:
+                raise CaseTimeout()
+            out.append(r)
         except CaseTimeout:
             out.append({'error': 'timeout: case exceeded its time budget'})
         except Exception as e:
